@@ -57,3 +57,50 @@ Example C02_kernel_empty_seq_example :
   List.In bool_name (names (empty_seq_new Types_Kernels.repaired_empty_seq (empty_seq_action false (ECmp true (EName 1%N) [(NotEq, EList [])]))
                                                 (ECmp true (EName 1%N) [(NotEq, EList [])]))).
 Proof. vm_compute. tauto. Qed.
+
+(** * Whole-tree kernel theorems (every site, nested ones included) and their composition with the lifting theorem *)
+From CM Require Import Proofs.WholeTree Proofs.LiftWholeTree.
+Theorem C02_kernel_set_literal_names_all : forall e, incl_str (names (rw_set_literal e)) (names e ++ builtin_names).
+Proof. exact set_literal_names. Qed.
+Print Assumptions C02_kernel_set_literal_names_all.
+Theorem C02_kernel_hasattr_names_all : forall cfg e, incl_str (names (rw_hasattr cfg e)) (names e ++ builtin_names).
+Proof. exact hasattr_names. Qed.
+Print Assumptions C02_kernel_hasattr_names_all.
+Theorem C02_kernel_identity_names_all : forall e, incl_str (names (rw_identity e)) (names e ++ builtin_names).
+Proof. exact identity_names. Qed.
+Print Assumptions C02_kernel_identity_names_all.
+Theorem C02_kernel_empty_seq_names_all : forall cfg in_test e, incl_str (names (empty_seq_file cfg in_test e)) (names e ++ builtin_names).
+Proof. exact empty_seq_names. Qed.
+Print Assumptions C02_kernel_empty_seq_names_all.
+Theorem C02_kernel_generator_names_all : forall cfg e, ug_nested cfg = true -> ug_updated_parts cfg = true ->
+  incl_str (names (generator_file cfg e)) (names e ++ builtin_names).
+Proof. exact generator_names. Qed.
+Print Assumptions C02_kernel_generator_names_all.
+(** composed with the run: the names of every non-manifest file after ANY run of codemods whose transformer is the kernel are
+    among the names it had before, plus builtins (parser contract: printing then parsing gives the tree back) *)
+Theorem C02_use_set_literal_run_no_new_names : C02_kernel_run_statement rw_set_literal run_tables_v.
+Proof. exact (C02_kernel_run_all _ set_literal_names run_tables_v). Qed.
+Print Assumptions C02_use_set_literal_run_no_new_names.
+Theorem C02_fix_hasattr_call_run_no_new_names : C02_kernel_run_statement (rw_hasattr hasattr_cfg_v) run_tables_v.
+Proof. exact (C02_kernel_run_all _ (hasattr_names hasattr_cfg_v) run_tables_v). Qed.
+Print Assumptions C02_fix_hasattr_call_run_no_new_names.
+Theorem C02_identity_run_no_new_names : C02_kernel_run_statement rw_identity run_tables_v.
+Proof. exact (C02_kernel_run_all _ identity_names run_tables_v). Qed.
+Print Assumptions C02_identity_run_no_new_names.
+Theorem C02_empty_seq_run_no_new_names : C02_kernel_run_statement (empty_seq_file empty_seq_cfg_v false) run_tables_v.
+Proof. exact (C02_kernel_run_all _ (empty_seq_names empty_seq_cfg_v false) run_tables_v). Qed.
+Print Assumptions C02_empty_seq_run_no_new_names.
+Theorem C02_use_generator_run_no_new_names : C02_generator_run_statement generator_cfg_v run_tables_v.
+Proof. exact (C02_generator_run_all generator_cfg_v run_tables_v). Qed.
+Print Assumptions C02_use_generator_run_no_new_names.
+Example C02_kernel_run_branch : ug_nested generator_cfg_v && ug_updated_parts generator_cfg_v = true.
+Proof. reflexivity. Qed.
+
+(** str-concat-in-sequence-literals introduces no name *)
+From CM Require Import Proofs.StrConcatFacts.
+Theorem C02_kernel_str_concat_names_all : forall cfg e, incl_str (names (rw_str_concat cfg e)) (names e ++ builtin_names).
+Proof. exact str_concat_names. Qed.
+Print Assumptions C02_kernel_str_concat_names_all.
+Theorem C02_str_concat_run_no_new_names : C02_kernel_run_statement (rw_str_concat str_concat_cfg_v) run_tables_v.
+Proof. exact (C02_kernel_run_all _ (str_concat_names str_concat_cfg_v) run_tables_v). Qed.
+Print Assumptions C02_str_concat_run_no_new_names.
